@@ -126,6 +126,8 @@ def run(ctx):
     for name, extra in configs(ctx.tier).items():
         spec = Spec(name, extra, ctx.tier)
         r = explore.bfs(ctx, spec, max_depth=40, label=name)
+    from vlib.props import c03_sched
+    c03_sched.run(ctx, family="clock")
     ctx.cov["exhaustive"] = all(r["frontier_exhausted"] for r in ctx.cov["runs"])
     ctx.cov["evaluations"] = ctx.cov["transitions"]
     ctx.cov["distinct_nontrivial"] = ctx.cov["states"]
@@ -137,6 +139,9 @@ def run(ctx):
 
 
 def replay(ctx, case):
+    if case.get("sched"):
+        from vlib.props import c03_sched
+        return c03_sched.replay(ctx, case)
     name = case["spec"].split("/", 1)[1]
     spec = Spec(name, configs("thorough")[name], "thorough" if name not in configs("quick") else ctx.tier)
     # the alphabet of a spec does not depend on the tier; rebuild and re-execute
